@@ -13,7 +13,7 @@ for x in A B; do
 done
 git -C /repo worktree remove --force /tmp/seed2-$p 2>/dev/null || true
 rm -rf /tmp/seed2-out/$p
-git add seeded; git commit -qm "seeded: candidates$ids (round 2)" || true
+for try in 1 2 3 4 5 6; do if git add seeded 2>/dev/null && git commit -qm "seeded: candidates$ids" 2>/dev/null; then break; fi; sleep $((RANDOM % 7 + 2)); done
 mkdir -p /tmp/se
 for id in $ids; do
   python3 tools/seeded_eval_iso.py $slot seeded/$id $p $extra > /tmp/se/$id.log 2>&1 || true
